@@ -113,7 +113,12 @@ func runPoolSeq(vectors, out string, shards, only int) {
 	tm, nm := hessian.ExtractTypeNameMap(probe)
 	n, nu := 0, 0
 	samples := []interface{}{}
+	hangs := 0
+	drv.Timeout = 5 * time.Second
 	for sc.Scan() {
+		if hangs >= 3 {
+			break // every further schedule would block the same way: three recorded hangs are enough
+		}
 		var vec struct {
 			Size int `json:"size"`
 			H    []struct {
@@ -146,6 +151,7 @@ func runPoolSeq(vectors, out string, shards, only int) {
 					}
 				})
 				if hung {
+					hangs++
 					ops = append(ops, proj.M{"op": op, "g": g, "obj": 0, "hang": 1})
 					return false
 				}
